@@ -13,14 +13,14 @@ for a while; flow control (`run_event` cleared while the reorder buffer is full)
   `NoFaults`; D19 repaired: no hypothesis on the work-queue bound (the former `ExitCap`) is needed any more.
 * `imap_terminates`: an explicit bound on the length of *every* schedule of a configuration.
 * `imap_maximal_final`: hence every maximal execution ends with the caller finished.
-* `exit_unblocked`: D19 repaired: the concrete 56-step schedule of a factory pool with 2 workers, quota 1, work-queue
+* `exit_unblocked`: D19 repaired: the concrete 58-step schedule of a factory pool with 2 workers, quota 1, work-queue
   bound 1 that used to end with the caller blocked in `__exit__` for good (second stop order on a full queue, every worker
   gone) goes on, with one more step of the consumer, to the caller being done.
 * `exit_skip_all_exited`: the loop of stop orders is left early (full queue) only when every worker ever created has exited
   (no join timeout); `exit_skip_all_gone`: for every configuration.
 
 A finite `join_timeout` (`Cfg.joinTimeout`: the joins of the replace thread and of `__exit__` return after the timeout whether
-the worker has exited or not; a retired worker's `end()` is a step of its own): `imap_no_deadlock`, `imap_terminates`,
+the worker has exited or not; every worker's `end()` is a step of its own, in every configuration): `imap_no_deadlock`, `imap_terminates`,
 `imap_maximal_final` hold for these configurations too (same statements; `*_joinTimeout` name the corollaries).
 `exit_returns_with_running_worker` / `exit_skip_running_worker`: witnesses that "every worker has exited when `__exit__`
 returns" needs `join_timeout=None` — hence the hypothesis `cfg.joinTimeout = false` ADDED to `exit_skip_all_exited` (and to
